@@ -28,3 +28,22 @@ FIL_OPS = {
     4: {"Wn": 5.0},  # defaults: order 8 lowpass
 }
 FIL_MAX = {1: 3, 2: 2, 3: 1, 4: 5}
+
+# ---- PoserMerge.tla -------------------------------------------------------------------
+# scale patterns: a[i][k] (setup i = 0.., mode k = 0..) as exact fractions; magnitude in [0.05, 20], either sign
+from fractions import Fraction as _Fr
+
+SCALE_CAT = [_Fr(1), _Fr(-1), _Fr(2), _Fr(-1, 2), _Fr(3), _Fr(1, 20), _Fr(-20), _Fr(7, 5)]
+
+
+def scale(pat: int, i: int, k: int):
+    return SCALE_CAT[(pat + 3 * i + 5 * k + i * k) % len(SCALE_CAT)]
+
+
+def global_shape(s: int, k: int, complex_=True):
+    """catalogue value of global sensor s (1-based), mode k (0-based): a Gaussian integer"""
+    re = ((3 * s + 7 * k) % 11) - 5
+    im = ((5 * s + 2 * k) % 7) - 3 if complex_ else 0
+    if re == 0 and im == 0:
+        re = 4
+    return complex(re, im)
